@@ -58,7 +58,7 @@ theorem open_plain_of_loop (l : Layout) (hF : l.Fits)
     (by omega) (by omega) hnfE
   have hle : (eocdOf l).cdSize.toNat + (eocdOf l).cdOffset.toNat ≤ l.eocdPos := by omega
   obtain ⟨q1, hq1⟩ := runs_getDirectoryCounts_plain (B := build l) (footer := eocdOf l)
-    (cdeStart := l.eocdPos) (p0 := l.eocdPos + 22 + l.comment.length) hnfL hle
+    (cdeStart := l.eocdPos) (p0 := l.eocdPos + 22 + l.comment.length) hnfL (by intro _; have hcm : (eocdOf l).comment = l.comment := rfl; rw [hcm]; omega) hle
   have hq1' : Runs (getDirectoryCounts (eocdOf l) l.eocdPos) (build l) (l.eocdPos + 22 + l.comment.length)
       (.ok (l.pre.length, l.cdStart, l.entries.length)) q1 := by
     refine hq1.cast ?_ rfl
